@@ -139,7 +139,12 @@ class Norm2:
         o = float(o)
         if o < 0:
             return op(1.0, 0.0)
-        return op(s.sq, o * o)
+        t = Fr(o) ** 2
+        lo, hi = interval(s.sq)                  # interval pre-filter (the four comparisons are monotone in sq): keeps the quadratic literal away from the solver
+        a, b = op(lo, t), op(hi, t)              # when the bounds on delta already decide it
+        if a == b:
+            return bool(a)
+        return op(s.sq, SymC.of(t))
 
     def __lt__(s, o):
         return s._c(o, lambda a, b: a < b)
@@ -417,7 +422,7 @@ def case_mesh(rec, fn, mesh, model, seed, L=None, base="shuffled", first=None, g
     # path budget: the list model alone determines the number of paths on the code as it is (measured ratio 1.0; up to 12 for the sub-grid cases, which fork on round(0.5+-)); a changed code that forks on
     # every coordinate must end as 'budget exhausted' (inconclusive, never success) instead of running for hours
     expected = _weight(dict(mesh=mesh, model=model, L=L, first=first)) // (10 + nk)
-    rec.explore(body, ass, maxpaths=(16 * expected + 60) if isinstance(grid, tuple) else (3 * expected) // 2 + 20)
+    rec.explore(body, ass, maxpaths=(40 * expected + 60) if isinstance(grid, tuple) else (3 * expected) // 2 + 20)
 
 
 def case_stub_validation(rec, seed):
